@@ -315,7 +315,8 @@ func (g *tgen) indexes(n int) []int {
 	return out
 }
 
-var jsonTagPool = []string{"", "", "", "name", "the_name,omitempty", "-", ",omitempty", "Ünï", "with space", "a\"q", "x,string"}
+// json:"-" is left out: the statements do not say whether "-" counts as a name
+var jsonTagPool = []string{"", "", "", "name", "the_name,omitempty", ",omitempty", "Ünï", "with space", "a\"q", "x,string"}
 
 func (g *tgen) structT(depth int) *TSpec {
 	g.nodes++
@@ -696,6 +697,9 @@ func (g *vgen) timeVal() *TimeVal {
 		nsec = rapid.Int32Range(0, 999999999).Draw(g.t, "tnu")
 	}
 	off := pick(g.t, "to", timeOffs)
+	if g.p.JSONTimes && off%60 != 0 {
+		off = 0 // RFC 3339 cannot express a zone offset with seconds
+	}
 	if g.p.JSONTimes {
 		// keep the local rendering inside years 1..9999 too
 		if sec+int64(off) < ZeroUnix || sec+int64(off) > 253402300799 {
